@@ -31,7 +31,14 @@ class AppMixin:
         self.n_on_connect += 1
         self.sim.rec("on_connect", self.name)
         self.sim.ep_event(self, "on_connect")
+        w = self._socket_writer
         await self.sim.hook(self.name, "on_connect")
+        if self._socket_writer is not w:
+            # the callback was parked / stalled so long that its connection is gone (and maybe the next one is up
+            # already, with its own on_connect): a sane application does not log on for a connection that is gone
+            self.sim.rec("on_connect_outlived_its_connection", self.name)
+            self.sim.probe("on_connect_outlived_its_connection")
+            return
         if self.auto_logon and isinstance(self, AsyncFIXClient):
             msg = FIXMessage(
                 FMsg.LOGON,
